@@ -1071,8 +1071,38 @@ func (x *Unit) bindNames(b *Block, pc *preparedCall, recvName string) map[string
 		names[recvName] = *pc.recv
 		names["self"] = *pc.recv
 	}
+	// a parameter renamed since the contract was written is also known under the name the contract uses (lib/names.json)
+	if bn, ok := x.calleeBaseNames(b); ok && sig != nil {
+		for i, n := range bn.Params {
+			if n == "" || n == "_" || i >= sig.Params().Len() || i >= len(pc.args) || sig.Params().At(i).Name() == n {
+				continue
+			}
+			if _, taken := names[n]; !taken {
+				names[n] = pc.args[i]
+				names[n+"0"] = pc.args[i]
+			}
+		}
+		if pc.recv != nil && bn.Recv != "" && bn.Recv != "_" {
+			if _, taken := names[bn.Recv]; !taken {
+				names[bn.Recv] = *pc.recv
+			}
+		}
+	}
 	x.aliasParams(pc.callee, sig, pc.args, pc.recv, names, true)
 	return names
+}
+
+// calleeBaseNames: the names the callee's receiver, parameters and results had when its contract was written.
+func (x *Unit) calleeBaseNames(b *Block) (baseNames, bool) {
+	if b == nil || b.Kind != "func" {
+		return baseNames{}, false
+	}
+	key := b.Key
+	if i := strings.Index(key, "#lit"); i >= 0 {
+		return baseNames{}, false // a literal's own parameters are not recorded
+	}
+	bn, ok := x.eng.baseNames[b.PkgPath+"."+key]
+	return bn, ok
 }
 
 func (x *Unit) applyContract(st *State, b *Block, pc *preparedCall, recvName string) []Val {
@@ -1215,6 +1245,17 @@ func (x *Unit) applyContract(st *State, b *Block, pc *preparedCall, recvName str
 		}
 		if len(results) >= 1 {
 			names["result"] = results[0]
+		}
+		// a named result renamed since the contract was written is also known under the name the contract uses
+		if bn, ok := x.calleeBaseNames(b); ok {
+			for i, n := range bn.Results {
+				if n == "" || n == "_" || i >= sig.Results().Len() || i >= len(results) || sig.Results().At(i).Name() == n {
+					continue
+				}
+				if _, taken := names[n]; !taken {
+					names[n] = results[i]
+				}
+			}
 		}
 	}
 	if b.Flags["fresh"] && len(results) > 0 {
